@@ -1,6 +1,8 @@
 /* C02 - JSON-RPC discipline: one response per request id, none for notifications, batches as sequences,
  * responses only on the requester's connection.  Exhaustive product method x params-shape x id-form x
  * daemon state x transport, plus incoming response objects and batch pairs (twin: batch vs one-by-one). */
+#define _GNU_SOURCE
+#include <crypt.h>
 #include <stdlib.h>
 #include <string.h>
 
@@ -101,6 +103,12 @@ static void complete_routing(int rounds)
 static void setup_state(int state, enum cl_kind rkind)
 {
 	struct sim_opts o = {0};
+	static char pwfile[500];
+	if (xp_param("passwd", 0)) {
+		/* credential file with the user / password of the alphabet's authenticate and passwd requests: their success paths answer too */
+		snprintf(pwfile, sizeof(pwfile), "{\"users\":{\"u\":{\"password\":\"%s\",\"auth\":{\"fetchGroups\":[\"g\"],\"setGroups\":[\"g\"],\"callGroups\":[\"g\"]}}}}", crypt("p", "$1$abcdefgh$"));
+		o.passwd_file = pwfile;
+	}
 	jx_boot(&o);
 	R = jx_open(rkind);
 	Y = jx_open(CL_RAW);
